@@ -46,7 +46,9 @@ REQUIRED_LABELS = ["machine:overwrite", "machine:same-file-siblings", "machine:r
 SPECIES = ["hydrogen", "deuterium", "tritium", "helium", "helium3", "carbon", "neon", "argon"]
 SP = {n: getattr(E, n) for n in SPECIES}
 TRANSITIONS = [[3, 2], [4, 2], [2, 1], ["3", "2"], ["2s1 3p1 3P4.0", "2s1 3s1 3S1.0"], ["2S1 3P1 3p4.0", "2s1 3s1 3S1.0"],
-               ["N=8", "n=7"], ["n=8", "N=7"], [5, 4]]
+               ["N=8", "n=7"], ["n=8", "N=7"], [5, 4],
+               # look-alikes: different lower-cased strings, hence different keys, whatever number they may spell
+               ["03", "2"], [" 3", "2"], ["3", "2 "], ["+3", "2"], ["3_0", "2"], [30, 2], ["3.0", "2"], ["3", "2.0"]]
 
 F_ADF11 = {"ionisation": ("add_ionisation_rate", "update_ionisation_rates", "get_ionisation_rate", "ionisation/%s.json"),
            "recombination": ("add_recombination_rate", "update_recombination_rates", "get_recombination_rate", "recombination/%s.json"),
